@@ -174,7 +174,7 @@ def partition(rng, n, how):
 
 
 def case(rng, tier):
-    seedless = ["bus new own"]
+    seedless = ["bus new %s" % rng.choice(["own", "own", "capi"])]   # capi: Teakra_Run etc. through the C binding
     prog, kind = program(rng)
     st = setup(rng)
     nseg = 1 + rng.below(4)
